@@ -5,14 +5,15 @@ import json, os, re, subprocess, sys
 R = os.path.dirname(os.path.dirname(os.path.abspath(__file__)))
 RES = os.path.join(R, "seeded", "RESULTS.json")
 res = json.load(open(RES)) if os.path.exists(RES) else {}
-names = sys.argv[1:] or sorted(os.listdir(os.path.join(R, "seeded")))
+names = [a for a in sys.argv[1:] if not a.startswith("--")] or sorted(os.listdir(os.path.join(R, "seeded")))
+ONLY = [a.split("=", 1)[1] for a in sys.argv[1:] if a.startswith("--check=")]
 EXTRA = {"C01": ["C02"], "C11": ["C01"], "C12": ["C01"]}
 for n in names:
     d = os.path.join(R, "seeded", n)
     if not os.path.isdir(d) or not os.path.exists(os.path.join(d, "patch.diff")):
         continue
     prop = json.load(open(os.path.join(d, "meta.json")))["property"]
-    for chk in [prop]:
+    for chk in (ONLY or [prop]):
         if res.get(n, {}).get(chk) in ("caught",) and "--force" not in sys.argv:
             continue
         p = subprocess.run([os.path.join(R, "tools", "mutant_run.sh"), os.path.join(d, "patch.diff"), chk, "quick"],
